@@ -44,6 +44,25 @@ Definition spec_ok (c : case_t) : bool :=
 """
 
 
+def coerce_nodes(xs):
+    """Half: declared float, returns int for even x; Pair: declared list[int], returns a tuple; Describe reports the
+    values and Python types it receives (its inputs are untyped)."""
+    if isinstance(xs, list):
+        return [dict(id=0, kind="half", preds=[], xs=xs, njobs=len(xs)), dict(id=1, kind="pair", preds=[], xs=xs, njobs=len(xs)),
+                dict(id=2, kind="describe", preds=[0, 1], njobs=1)]
+    return [dict(id=0, kind="half", preds=[], x=xs, njobs=1), dict(id=1, kind="pair", preds=[], x=xs, njobs=1),
+            dict(id=2, kind="describe", preds=[0, 1], njobs=1)]
+
+
+def coerce_expected(xs):
+    """The stored (type-coerced) values: what every worker must hand downstream and return."""
+    if isinstance(xs, list):
+        h, p = [x / 2 for x in xs], [[x, x + 1] for x in xs]
+    else:
+        h, p = xs / 2, [xs, xs + 1]
+    return [repr(h), repr(p), repr("%r:%s %r:%s" % (h, type(h).__name__, p, type(p).__name__))]
+
+
 def run(ctx):
     rng = ctx.rng
     # the same workflows under several configurations
@@ -78,6 +97,21 @@ def run(ctx):
                         n_procs=rng.choice([2, 4])))
         sgroups.append((len(extra), len(grp)))
         extra += grp
+    # node bodies whose return value needs coercion to the declared output type, across workers
+    cgroups = []
+    ccases = [c.get("case", c) for c in ctx.corpus() if c.get("case", c).get("mode", "").startswith("coerce")]
+    for n in range(ctx.budget(2, 16) + len(ccases)):
+        if n < len(ccases):
+            xs = ccases[n].get("xs_param")
+        else:
+            xs = rng.choice([rng.randint(0, 9), [rng.randint(0, 9) for _ in range(rng.randint(1, 3))]])
+        nodes = coerce_nodes(xs)
+        nj = sum(fakes.njobs(nd) for nd in nodes)
+        grp = [dict(nodes=nodes, k=None, fail=[], oracle=[], mode="coerce_sync", xs_param=xs),
+               dict(nodes=nodes, k=rng.choice([None, 1, 2]), fail=[], oracle=fakes.gen_oracle(rng, nj), mode="coerce", xs_param=xs),
+               dict(nodes=nodes, k=None, fail=[], oracle=[], mode="coerce_cf", n_procs=rng.choice([1, 3]), xs_param=xs)]
+        cgroups.append((len(extra), len(grp), xs))
+        extra += grp
     out, cases, obs, usable, bad = fakes.drive(
         ctx, "c17", SPEC, ctx.budget(10, 150), ctx.budget(3, 30), ctx.budget(6, 200), RULE,
         "outputs differ from the reference evaluation of the workflow", fail_p=0.0, extra_cases=extra)
@@ -108,6 +142,18 @@ def run(ctx):
                     expected={"outputs_of_the_sequential_worker": ref}, kind="spec",
                     note="state-propagating workflow: outputs depend on the completion order / worker"))
                 break
+    for start, n, xs in cgroups:
+        want = coerce_expected(xs)
+        for j in range(n):
+            c, o = cases[base + start + j], obs[base + start + j]
+            if o.get("outcome") not in ("ok", "error"):
+                continue
+            if o.get("outcome") != "ok" or o.get("outputs") != want:
+                out.failures.append(Failure(
+                    case=c, observed=fakes.slim(o), expected={"outputs (repr)": want}, kind="spec",
+                    note="outputs that need coercion to the declared type differ between workers / from the stored value"))
+                break
+    out.extra["coercion_workflows_compared_across_workers"] = len(cgroups)
     out.extra["state_propagating_workflows_compared"] = nstate
     out.extra["workflows_compared_across_workers"] = ngroups
     out.extra["configurations_per_workflow"] = groups[0][1] if groups else 0
@@ -120,6 +166,13 @@ def replay(ctx, payload):
         cs = [dict(nodes=case["nodes"], fail=[], oracle=[], **cfg) for cfg in case["configurations"]]
         for c, o in zip(cs, fakes.run_batch(cs, nproc=2)):
             print({k: c.get(k) for k in ("mode", "k", "n_procs")}, "->", o.get("outputs") if o.get("outcome") == "ok" else o.get("msg"))
+        return
+    if case.get("mode", "").startswith("coerce"):
+        cs = [dict(case, mode=m, oracle=case.get("oracle") if m == "coerce" else [], n_procs=case.get("n_procs") or 2)
+              for m in ("coerce_sync", "coerce", "coerce_cf")]
+        for c, o in zip(cs, fakes.run_batch(cs, nproc=3)):
+            print(c["mode"], "->", o.get("outputs") if o.get("outcome") == "ok" else o.get("msg"))
+        print("expected (stored, coerced values):", coerce_expected(case["xs_param"]))
         return
     if case.get("mode") in ("state", "state_cf"):
         ref, o = fakes.run_batch([dict(case, mode="state_sync", oracle=[]), case], nproc=2)
